@@ -17,6 +17,7 @@ def ledger_oracle(logpath):
     be in use, a release must be of a block in use, stack tops 16-byte aligned inside a page-rounded
     block, and at quiescence nothing is left in use (every thread reaped exactly once)."""
     inuse = {"DESC": {}, "STACK": {}}
+    want = {}
     for n, line in enumerate(open(logpath), 1):
         w = line.split()
         if len(w) < 8 or w[0] != "ev":
@@ -25,6 +26,10 @@ def ledger_oracle(logpath):
         if pt not in ("DESC_GET", "DESC_FREE", "STACK_GET", "STACK_FREE"):
             continue
         kind = pt.split("_")[0]
+        if pt == "STACK_GET":
+            want[raw] = (int(w[6]) + 4095) // 4096 * 4096 if int(w[6]) else 0
+        if pt == "STACK_FREE" and raw in want and int(w[6]) != want[raw]:
+            return "line %d: stack block %s was obtained for %d bytes but is released with recorded size %s: the block start recovered from the size word is wrong (block leaks / overlaps its neighbour)" % (n, raw, want[raw], w[6])
         if pt.endswith("GET"):
             if raw in inuse[kind]:
                 return "line %d: %s block %s handed out while still in use (since line %d)" % (n, kind.lower(), raw, inuse[kind][raw])
